@@ -71,6 +71,9 @@ def all_pairs() -> List[Any]:
             mod = sys.modules.get(mname)
             if mod is None or mname.startswith("hypothesis") or mname.startswith("vt."):
                 continue
+            if traps.is_unexecuted_module(mod):
+                out.append((mname, "Boom"))       # looking into it would import it; ask for the one name it is known to define
+                continue
             try:
                 names = sorted(n for n in vars(mod) if isinstance(n, str))
             except TypeError:
@@ -114,6 +117,7 @@ TRAP_TARGETS = [
     ("vt_trapmod", "builtin_eval"), ("vt_trapmod", "builtin_print"), ("vt_trapmod", "type_type"), ("vt_trapmod", "object_type"),
     ("vt_trapmod", "sub"), ("vt_trapmod", "sub.func"), ("vt_trapmod.sub", "func"), ("builtins", "eval"), ("builtins", "print"),
     ("os", "system"), ("os", "path.join"), ("functools", "partial"), ("vt_trapmod", "exc_instance.__class__.__base__.__subclasses__"),
+    ("vt_trapmod", "lazy_mod"),
     ("vt_trapmod", "nosy"), ("vt_trapmod", "nosy.method"), ("vt_trapmod", "nosy_partial"), ("vt_trapmod", "NosyClass"), ("vt_trapmod", "nosy.__class__"),
     ("vt_trapmod", "GoodExc.__init__"), ("vt_trapmod", "GoodExc.mro"), ("vt_trapmod", "GoodExc.__class__"), ("builtins", "BaseException.__new__"),
 ]
@@ -124,6 +128,7 @@ EXC_TARGETS = [
 ]
 UNRESOLVED = [
     ("vt_trapmod", "nope"), ("vt_trapmod", "GoodExc.nope"), ("vt_trapmod", "sub.nope.deeper"), ("builtins", "NoSuchError"),
+    ("vt_lazy_unloaded", "Boom"), ("vt_lazy_unloaded", "nope"), ("vt_trapmod", "lazy_mod.Boom"),
     ("vt_unloaded_trap", "Boom"), ("vt_unloaded_trap", "run"), ("not.a.loaded.module", "X"), ("vt_unloaded_pkg.sub", "Boom"), ("vt_unloaded_pkg.nosuch", "X"), ("vt_unloaded_pkg", "sub.Boom"), ("json.nonexistent_submodule", "X"), ("json.nonexistent_submodule", "JSONDecodeError"), ("os.not_there", "error"), ("os.not_there", "system"),
     ("vt_trapmod.nosuchsub", "GoodExc"), ("vt_trapmod.nosuchsub", "func"), ("vt_trapmod.sub.deeper", "SubExc"), ("builtins.x", "ValueError"), ("asyncio.nope.deeper", "CancelledError"),
     ("vt_trapmod_lazy", "LazyExc"), ("vt_trapmod_lazy", "lazy_func"), ("vt_trapmod_lazy", "lazy_sub.run"), ("vt_trapmod_lazy", "nope"), ("vt_trapmod_lazysub", "LazyExc"), ("vt_trapmod_lazysub", "lazy_func"), ("vt_trapmod_lazysub", "computed"),
@@ -171,6 +176,8 @@ def resolve(module: Optional[str], name: str) -> Any:
     obj: Any = sys.modules[module]
     try:
         for part in name.split("."):
+            if traps.is_unexecuted_module(obj):
+                return "unresolved", None       # resolving a name through it would run the module = import it
             if isinstance(obj, _types_mod.ModuleType):
                 # what a module HAS, not what it would fetch on demand: a module-level __getattr__ (PEP 562) may import
                 # modules, and "resolved" means resolved without importing anything
@@ -216,7 +223,7 @@ def expect_tree(t: Dict[str, Any]) -> str:
     if is_wrapper(t):
         return "exception"      # the wrapper is restored as a synthetic exception class of that name - nothing is looked up
     kind, obj = resolve(t["t"][0], t["t"][1])
-    if kind == "object" and not (isinstance(obj, type) and issubclass(obj, BaseException)):
+    if kind == "object" and (traps.is_unexecuted_module(obj) or not (isinstance(obj, type) and issubclass(obj, BaseException))):
         return "security"
     for k in ("cause", "context"):
         if t.get(k) and expect_tree(t[k]) == "security":
